@@ -25,6 +25,7 @@ type dcol struct {
 	null    bool
 	def     string // literal default ("" = none)
 	comment string
+	vals    []string // replay stage: the enum's values (nil = a, b)
 }
 
 type didx struct {
@@ -41,6 +42,7 @@ type dfk struct {
 	ref     string // referenced table name
 	rschema *string
 	rcols   []string
+	ondel   string // replay stage: "" = CASCADE, setnull, noaction
 }
 
 type dchk struct{ name, expr string }
